@@ -230,6 +230,9 @@ def r4_refusal(cx, classes):
                        construct="raise NoFilterException guarded by %s" % sorted((U(e), p) for e, p, o in g if o != "exit-raise"))
 
 
+    c06.filterable_provenance(cx, sf, "C07.R4")
+
+
 def r5_never_swallowed(cx, mods):
     cx.rule("C07.R5", "NoFilterException raised while building a provider is never swallowed by a factory", floor=7)
     sf = cx.repo.module(SF)
